@@ -103,6 +103,21 @@ class SegmentAllocationTableAdapter(Adapter):
                     elif value_current == AKAI_SAT_FREE_FLAG or \
                             (value_current < size and dirty_flags[value_current]):
 
+                        # The walk runs into a chain resolved earlier (the
+                        # head of a fragmented file need not be its lowest
+                        # sector): keep the links collected so far and join
+                        # that chain instead of discarding them.
+                        if value_current != AKAI_SAT_FREE_FLAG \
+                                and value_current != subpath_index \
+                                and value_current not in links \
+                                and block[value_current] != AKAI_SAT_FREE_FLAG:
+                            links.append(subpath_index)
+                            add_to_sector_links(links, sector_links)
+                            sector_links[subpath_index] = SectorLink(
+                                next=value_current, 
+                                end=False
+                            )
+
                         continue_flag = False
                         dirty_flags[subpath_index] = True
                         previous_sector_was_directory = False
